@@ -212,6 +212,54 @@ def wsum_fn(X, st, L, kind="wait"):
 
 
 @spec
+def lastidx(X, st, e):
+    """lastidx(L, k, 'TYPE'): index of the last message of that type in L[0:k], or -1 (in the heap of evaluation).
+    Recursion axioms; facts -1 <= f(k) < k and type(L[f(k)]) == TYPE when f(k) >= 0 are instances of lemma lastidx_range; pairs of such
+    functions are related by lemma lastidx_ext (same types on a prefix give the same index)."""
+    L = X.ev(e.args[0], st)
+    k = X.ev(e.args[1], st)
+    tname = e.args[2].value
+    T = X.ctx.enums["MessageType"].index(tname)
+    el, ty, tyn = st.heap["@el"][L.v], st.heap["message_type"], st.heap["message_type?"]
+    key = ("last" + tname, el.get_id(), ty.get_id(), tyn.get_id())
+    cache = X.__dict__.setdefault("_specfn", {})
+    pairs = X.__dict__.setdefault("_specfn_pairs", {})
+    if key not in cache:
+        f = z3.Function(f"last{tname}{len(cache)}", I, I)
+        kk = z3.Int("k!li")
+        hit = lambda j: z3.And(z3.Not(tyn[el[j]]), ty[el[j]] == T)
+        ax = [f(0) == -1, safe_forall([kk], z3.Implies(kk >= 0, f(kk + 1) == z3.If(hit(kk), kk, f(kk))), patterns=[f(kk + 1)]),
+              safe_forall([kk], z3.Implies(kk >= 0, z3.And(-1 <= f(kk), f(kk) < kk, z3.Implies(f(kk) >= 0, hit(f(kk))))), patterns=[f(kk)])]
+        cache[key] = (f, ax, hit)
+        X.notes.append("L: instances of lemmas lastidx_range / lastidx_ext for the last-signature index")
+    f, ax, hit = cache[key]
+    have = {p.get_id() for p in st.pc}
+    if ax[1].get_id() not in have:
+        n, j = z3.Int("n!li"), z3.Int("j!li")
+        for okey, (g, gax, ghit) in list(cache.items()):
+            if okey[0] != key[0] or okey == key or gax[1].get_id() not in have:
+                continue
+            pk = (okey, key)
+            if pk not in pairs:
+                pax = []
+                for (fa, ha, fb, hb) in ((g, ghit, f, hit), (f, hit, g, ghit)):
+                    hyp = safe_forall([j], z3.Implies(z3.And(0 <= j, j < n), ha(j) == hb(j)))
+                    pax.append(safe_forall([n], z3.Implies(z3.And(n >= 0, hyp), fb(n) == fa(n)), patterns=[fa(n)]))
+                pairs[pk] = pax
+            st.pc.extend(pairs[pk])
+        st.pc.extend(ax)
+    ks = z3.simplify(k.v)
+    if not z3.is_int_value(ks) and z3.is_app_of(ks, z3.Z3_OP_ADD):
+        have = {p.get_id() for p in st.pc}
+        for back in (1, 2):
+            kt = z3.simplify(ks - back)
+            inst = z3.Implies(kt >= 0, f(kt + 1) == z3.If(hit(kt), kt, f(kt)))
+            if inst.get_id() not in have:
+                st.pc.append(inst)
+    return Num(f(k.v))
+
+
+@spec
 def wsum_mono(X, st, e):
     """lemma instance (proved by induction in lemmas.py): waits non-negative on L[0:n] => wsum monotone on 0..n"""
     L = X.ev(e.args[0], st)
